@@ -266,6 +266,10 @@ func TestC08_RoundTrip(t *testing.T) {
 // (exhaustive over presence), contents and lengths drawn per seed; repeated ev.N times.
 func TestC08_Subsets(t *testing.T) {
 	r := ev.New(t, "C08", "TestC08_Subsets")
+	if ev.Replay() != "" { // ./check C08 --replay FILE: evaluate the saved case only
+		ev.Run(t, r, genWire, c08Oracle)
+		return
+	}
 	defer r.Flush()
 	reps := ev.N(24, 2400)
 	subsets := 0
@@ -358,6 +362,10 @@ func c08UnknownOracle(c c08Unknown) ev.Verdict {
 
 func TestC08_UnknownTypes(t *testing.T) {
 	r := ev.New(t, "C08", "TestC08_UnknownTypes")
+	if ev.Replay() != "" {
+		ev.Run(t, r, func(*rapid.T) c08Unknown { return c08Unknown{} }, c08UnknownOracle)
+		return
+	}
 	defer r.Flush()
 	reps := ev.N(8, 80)
 	known := 0
